@@ -97,6 +97,21 @@ SUBSIB = cfgd(NS=1, InitSBases='<-SB_One', Names='<-NamesE',
               SubKeys='<-SubKeysSib', LookKeys='<-LookKeysSib', MaxLive=3,
               MaxDepth=5)
 
+# Components layer (MC_RegistryComp): two / three component registries, re-run
+# constructors (fresh registries under a live component) and re-assigned
+# __bases__ (also the same tuple): NG counts registry IDENTITIES
+COMP = cfgd(NS=1, NG=4, InitSBases='<-SB_One', Names='<-NamesE',
+            Muts='{"reg","unreg","sub"}', Queries='{"lookup","subs"}',
+            RegKeys='<-RegKeysChain', SubKeys='<-SubKeysChain',
+            LookKeys='<-LookKeysChain', MaxLive=2, MaxDepth=5,
+            NC=2, InitCBases='<-CB_Chain2', CBaseChoices='<-CBaseChoices2')
+COMP3 = dict(COMP, NG=5, NC=3, InitCBases='<-CB_Chain3',
+             CBaseChoices='<-CBaseChoices3')
+COMP_OPT = dict(module='MC_RegistryComp', init='InitC', next_='NextC',
+                view='ViewC', emit='EmitC', dumpobs='DumpObsC',
+                invs=['LinkedUnlessStale'], props=['AssignRelinks'],
+                components=True, only_components=True)
+
 INVS = ['TypeOK', 'ExtOK', 'InvWalkIsBest', 'InvEntryPointsAgree',
         'InvSubsExact', 'CacheTransparent', 'RoIsFresh']
 
@@ -245,8 +260,22 @@ PLAN = {
              dict(CHAIN, InitRBases='<-RB_Chain3', MaxLive=3, MaxDepth=100,
                   Flavour='"verify"'),
              dict(sb='SB_One', rb='RB_Chain3', num=300, depth=14)),
+            # Components: constructors re-run on live objects, __bases__
+            # re-assigned (the same tuple included)
+            ('components reinit d5', 'edges', COMP,
+             dict(COMP_OPT, sb='SB_One', rb='RB_None4', cb=[[], [1]])),
+            ('components3 reinit sim', 'sim', dict(COMP3, MaxLive=3,
+                                                   MaxDepth=100),
+             dict(COMP_OPT, sb='SB_One', rb='RB_None5', cb=[[], [1], [2]], num=200, depth=14)),
         ],
         'thorough': [
+            ('components reinit d7', 'edges', dict(COMP, MaxDepth=7),
+             dict(COMP_OPT, sb='SB_One', rb='RB_None4', cb=[[], [1]])),
+            ('components3 reinit d6', 'edges', dict(COMP3, MaxDepth=6),
+             dict(COMP_OPT, sb='SB_One', rb='RB_None5', cb=[[], [1], [2]])),
+            ('components3 reinit sim', 'sim', dict(COMP3, MaxLive=4,
+                                                   MaxDepth=100),
+             dict(COMP_OPT, sb='SB_One', rb='RB_None5', cb=[[], [1], [2]], num=4000, depth=25)),
             ('chain d6 push', 'edges',
              dict(CHAIN, MaxDepth=6, RBaseChoices='<-RBaseChoices3'),
              dict(sb='SB_One', rb='RB_None3', components=True)),
@@ -314,6 +343,8 @@ def run_replay(build, v, pid, consts, opt, mode, cases, budget):
         cases = rnd.sample(cases, budget)
     jobs = []
     for implv in ('c', 'py'):
+        if opt.get('only_components'):
+            break
         for li, leaf_impl in enumerate((False, True)):
             for si, sh in enumerate(shard(cases, max(1, NCPU // 4))):
                 job = {'flavour': flavour_of(consts), 'sbases': SB[opt['sb']],
@@ -339,6 +370,12 @@ def run_replay(build, v, pid, consts, opt, mode, cases, budget):
                     'rbases': RB[opt['rb']], 'leaf_impl': False,
                     'mode': mode, 'cases': sh, 'components': True,
                     'seed': seed() * 1000 + 500 + si}))
+                if opt.get('cb'):
+                    jobs[-1][1]['cbases'] = opt['cb']
+                if opt.get('only_components'):
+                    # the same behaviours on the .utilities side
+                    jobs.append((implv, dict(jobs[-1][1],
+                                             comp_attr='utilities')))
     for (implv, job), r in zip(jobs, run_children(build,
                                                   'replay_registry.py',
                                                   jobs)):
@@ -393,6 +430,14 @@ def run(pid, tier, v, build, plan=None):
     if True:
         for (name, kind, consts, opt) in (plan or PLAN[pid])[tier]:
             flav = flavour_of(consts)
+            module = opt.get('module', 'MC_Registry')
+            invs = INVS + opt.get('invs', [])
+            mk = dict(init=opt.get('init', 'Init'),
+                      next_=opt.get('next_', 'Next'),
+                      properties=opt.get('props', ()))
+            view = opt.get('view', 'View')
+            emit = opt.get('emit', 'Emit')
+            dumpobs = opt.get('dumpobs', 'DumpObs')
             if kind == 'states':
                 cfg = make_cfg(build.dir, 'reg', consts, view='View',
                                constraint='Bound',
@@ -400,18 +445,18 @@ def run(pid, tier, v, build, plan=None):
                 res = run_tlc('MC_Registry', cfg, scratch=build.dir,
                               timeout=3000)
             elif kind == 'edges':
-                cfg = make_cfg(build.dir, 'reg', consts, view='View',
-                               constraint='Bound', action_constraint='Emit',
-                               invariants=INVS + ['DumpObs'])
-                res = run_tlc('MC_Registry', cfg, scratch=build.dir,
+                cfg = make_cfg(build.dir, 'reg', consts, view=view,
+                               constraint='Bound', action_constraint=emit,
+                               invariants=invs + [dumpobs], **mk)
+                res = run_tlc(module, cfg, scratch=build.dir,
                               timeout=3000,
                               workers=1 if tier == 'quick' else None)
                 join_obs(res)
             else:
-                cfg = make_cfg(build.dir, 'reg', consts, view='View',
-                               constraint='Bound', action_constraint='Emit',
-                               invariants=INVS + ['DumpObs'])
-                res = run_tlc('MC_Registry', cfg, scratch=build.dir,
+                cfg = make_cfg(build.dir, 'reg', consts, view=view,
+                               constraint='Bound', action_constraint=emit,
+                               invariants=invs + [dumpobs], **mk)
+                res = run_tlc(module, cfg, scratch=build.dir,
                               simulate=opt['num'], depth=opt['depth'],
                               seed_=seed(), timeout=3000)
                 join_obs(res, every=4)
